@@ -163,7 +163,7 @@ func supervise(r *ev.Run) {
 		if crashes == 2 {
 			atomic.AddInt64(&confirmed, 1)
 			shape := strings.SplitN(j.p.Skeleton(), "/", 2)[0]
-			sig := fmt.Sprintf("C01/%s/%s/%s/process-crash", shape, j.p.Src.Class(), lastOpClass(j.p))
+			sig := fmt.Sprintf("C01/%s%s/%s/%s/process-crash", shape, j.execTag(), srcClass(j.p), lastOpClass(j.p))
 			r.Violate(sig, fmt.Sprintf("program {%s} with Parallelism(%d) kills the driver process: %s", j.p, j.par, why),
 				map[string]interface{}{"program": j.p.String(), "parallelism": j.par, "panic": why})
 		}
